@@ -490,7 +490,7 @@ func (s *Lexer) getNextToken() (*Token, error) {
 		} else if current_state == SSTART && (ch == '>' || ch == '<') {
 			buf.WriteRune(ch)
 			current_state = SOPERATORSTART
-		} else if unicode.IsSpace(ch) {
+		} else if unicode.IsSpace(ch) && current_state != SSTRING_D_ESCAPE && current_state != SSTRING_S_ESCAPE {
 			if current_state == SSTART || current_state == SWHITESPACE {
 				current_state = SWHITESPACE
 				buf.WriteRune(ch)
